@@ -29,6 +29,7 @@ CFG = {
     "clash_rename_space": 0.08,     # share of `space.rename(..)` in the name-clash histories (`X.X`, `A.X.A` are common there)
     "enum_always": ("new_cells", "new_space", "set_ref", "rename_cells", "add_bases"),   # every edit that can bring two members of one name together
     "clash_wide": True,     # name-clash histories: several sub spaces per base, re-deriving edits after every request
+    "rename_bad": 0.15,     # share of the space renames that offer a name that is no name (`_x`, `1a`, `for`, `a b`, ...)
 }
 RULE = ("random histories (12-26 ops) of member creation/deletion/renaming and base changes over a small shared "
         "name alphabet (cells names, reference names and child-space names overlap on purpose through the malformed "
@@ -140,11 +141,20 @@ class H(S.Hooks):
         if op[0] in ("eval", "evalall"):
             return
         m = live.m
+        for n in sorted(m.spaces, key=repr):
+            if not api.valid_name(n):
+                out.fail("the space name %r is not a valid identifier" % (n,), hist)
         if set(m.spaces) & {k_ for k_ in m.refs if not k_.startswith("__")}:
             out.fail("a name denotes both a space and a reference of the model: %s" % (
                 set(m.spaces) & set(m.refs)), hist)
         for path, s in W.all_spaces(m):
             cells, own, ch = set(s.cells), set(s._own_refs), set(s.spaces)
+            # every member name is a name: what the containers hold can be written in a formula and reached by
+            # attribute access only if it is a valid identifier (not a keyword, no leading underscore)
+            for n in sorted(cells | own | ch, key=repr):
+                if not api.valid_name(n):
+                    out.fail("in %s the %s name %r is not a valid identifier" % (
+                        path, "cells" if n in cells else "reference" if n in own else "child space", n), hist)
             for a, b, what in ((cells, own, "a cells and a reference"), (cells, ch, "a cells and a child space"),
                                (own, ch, "a reference and a child space")):
                 if a & b:
@@ -300,6 +310,13 @@ def run(ctx, out):
     fam2 = S.refusal_family()
     refused2 = S.run_family(out, stats, fam2, H, CFG, "refusal_family")
     out.coverage["evaluations"] += len(fam2)
+    fam4 = S.naming_family()
+    S.run_family(out, stats, fam4, H, CFG, "naming_family")
+    out.coverage["evaluations"] += len(fam4)
+    out.coverage["rule"] += ("; plus the naming family (struct_props.naming_family): %d programs offering each of %d names "
+                             "that are no names to every entry point that gives or changes a name (spaces, cells, "
+                             "references, imports, copy); every member name in every container is a valid identifier "
+                             "after every operation" % (len(fam4), len(S.BAD_NAMES)))
     out.coverage["input_distribution"] = dict(stats)
     out.coverage["rule"] += ("; plus the clash family: %d programs = (kind a sub space / sub-sub space uses a name for) x "
                              "(other kind arriving from above) x (add_bases of a definer / of a deriver / of two bases / "
